@@ -463,6 +463,10 @@ type recHub struct {
 	issuedBy map[string]string // secret id -> uuid of the backend instance that issued it
 	misrouted []string         // revocations that arrived at a backend instance other than the issuing one
 	failRevoke bool
+	// the next failRevokeN revocations fail with failRevokeErr; revokeFailed counts them
+	failRevokeN   int
+	failRevokeErr error
+	revokeFailed  int
 	renewHook  func(ctx context.Context, req *logical.Request) // set before the requests start, called inside a renewal
 	honourCtx  bool // a revocation arriving with a cancelled context fails (like a backend that hands ctx to its database)
 	special  map[string]*logical.Paths // by backend type name
@@ -597,6 +601,12 @@ func (b *recBE) HandleRequest(ctx context.Context, req *logical.Request) (*logic
 		id, _ := req.Secret.InternalData["id"].(string)
 		h.mu.Lock()
 		fail := h.failRevoke
+		var scripted error
+		if !fail && h.failRevokeN > 0 {
+			h.failRevokeN--
+			fail, scripted = true, h.failRevokeErr
+			h.revokeFailed++
+		}
 		if h.honourCtx && ctx.Err() != nil {
 			h.mu.Unlock()
 			return nil, ctx.Err()
@@ -608,6 +618,9 @@ func (b *recBE) HandleRequest(ctx context.Context, req *logical.Request) (*logic
 		}
 		h.mu.Unlock()
 		if fail {
+			if scripted != nil {
+				return nil, scripted
+			}
 			return nil, fmt.Errorf("recbe: revocation refused by script")
 		}
 		return nil, nil
